@@ -152,6 +152,9 @@ func (it *Interp) NewObject(t types.Type, name string, input bool) *Object {
 	it.nobj++
 	o := &Object{Name: name, Input: input, ID: it.nobj}
 	o.Root = it.newCell(t, o, nil, 0)
+	if input {
+		it.inputRoots = append(it.inputRoots, o.Root)
+	}
 	return o
 }
 
